@@ -185,6 +185,67 @@ class SubCheck:
         self.fork_timeout = fork_timeout
 
 
+    def replay_trace(self, trace):
+        """Re-execute a recorded history without Hypothesis: call the rule methods in order on a
+        fresh machine (each rule runs the machine's invariants itself)."""
+        result = {}
+
+        def on_end(tr, info, error):
+            result["error"] = error
+
+        cls = self.machine(on_end, lambda: False)
+        m = cls()
+        try:
+            for name, kwargs in trace:
+                getattr(m, name)(**kwargs)
+        finally:
+            m.teardown()
+
+
+def make_trace_machine(on_end, expired):
+    """Base class for history checks: rules call self.step(name, kwargs, fn); the trace of
+    [rule, kwargs] pairs is the replay file; Violations are recorded for the runner."""
+    from hypothesis.stateful import RuleBasedStateMachine
+
+    class TraceMachine(RuleBasedStateMachine):
+        def __init__(self):
+            super().__init__()
+            self.trace = []
+            self.error = None
+            self.info = {"classes": set(), "nontrivial": False}
+            self.dead = False
+
+        def step(self, name, kwargs, fn):
+            if self.dead or expired():
+                return
+            self.trace.append([name, kwargs])
+            try:
+                fn()
+                self.inv()
+            except Violation as v:
+                self.error = v
+                self.dead = True
+                raise
+            except HarnessError:
+                raise
+            except Exception as e:  # noqa: BLE001
+                if _has_library_frame(e):
+                    self.error = Violation(f"unexpected {type(e).__name__} from the library in {name}: {str(e)[:200]}")
+                    self.dead = True
+                    raise self.error from e
+                raise HarnessError("harness bug in rule %s: %r\n%s" % (name, e, traceback.format_exc())) from e
+
+        def inv(self):
+            pass
+
+        def teardown(self):
+            info = dict(self.info)
+            info["classes"] = sorted(info.get("classes", ()))
+            on_end(self.trace, info, self.error)
+
+    return TraceMachine
+
+
 def tier_index(tier):
     return 0 if tier == "quick" else 1
 
